@@ -110,7 +110,7 @@ def keyword_spellings(ctx, rid):
 C99_WHITE_SPACE = {" ": "space", "\t": "horizontal tab", "\n": "new-line", "\v": "vertical tab", "\f": "form feed"}
 
 
-def white_space(ctx, rid):
+def white_space(ctx, rid, only_nonspace=False):
     """C99 6.4p3: white space between tokens is space, horizontal tab, new-line, vertical tab and form feed.  The scanning loop of
     CLexer.token must skip each of them: a character-dispatch arm whose patterns are white-space characters and whose body only moves the
     cursor / line bookkeeping (no token, no error call).  A white-space character without such an arm falls into the token matcher and is
@@ -133,9 +133,35 @@ def white_space(ctx, rid):
         if not calls and not rets and moves and n.guard is None:
             for v in vals:
                 skipped[v] = n
+    # arms that skip by a PREDICATE on the character (`case c if c.isspace()`, `case c if c in " \t..."`): the set of skipped characters is what the
+    # predicate accepts; str.isspace() also accepts \r, \x1c-\x1f, \x85, no-break space and a dozen other Unicode blanks, none of which is white space in C
+    for n in ast.walk(tok):
+        if not (isinstance(n, ast.match_case) and n.guard is not None and isinstance(n.pattern, ast.MatchAs)):
+            continue
+        calls = [c for st in n.body for c in ast.walk(st) if isinstance(c, ast.Call)]
+        rets = [r for st in n.body for r in ast.walk(st) if isinstance(r, ast.Return)]
+        moves = any(isinstance(a, ast.AugAssign) and isinstance(a.op, ast.Add) and S.unparse(a.target).endswith("_pos") for st in n.body for a in ast.walk(st))
+        if calls or rets or not moves:
+            continue
+        gtxt = S.unparse(n.guard)
+        var = n.pattern.name
+        accepted = None
+        if gtxt == f"{var}.isspace()":
+            accepted = "str.isspace()"
+            for ch in C99_WHITE_SPACE:
+                skipped.setdefault(ch, n)
+        elif isinstance(n.guard, ast.Compare) and len(n.guard.ops) == 1 and isinstance(n.guard.ops[0], ast.In) and isinstance(n.guard.comparators[0], ast.Constant) and isinstance(n.guard.comparators[0].value, str) and S.unparse(n.guard.left) == var:
+            for ch in n.guard.comparators[0].value:
+                skipped.setdefault(ch, n)
+            continue
+        if accepted is None:
+            raise AnalysisError(f"CLexer.token skips characters under the guard `{gtxt}`, which the white-space rule cannot evaluate")
+        ctx.oblige(rid, f"characters skipped under `{gtxt}` are white space in C", False)
+        ctx.violation(rid, f"skips-non-space:{accepted}", f"CLexer.token silently skips every character for which `{gtxt}` holds; {accepted} also accepts carriage return, \\x1c-\\x1f, \\x85, the no-break space and other Unicode blanks, "
+                      "which are not white space in C: text containing them is accepted as if they were not there instead of being reported as illegal characters", file=lx.rel, function="CLexer.token", line=n.pattern.lineno)
     if len(skipped) < 2:
         raise AnalysisError("white-space arms of CLexer.token not found (expected a character dispatch on text[self._pos])")
-    for ch, name in C99_WHITE_SPACE.items():
+    for ch, name in ({} if only_nonspace else C99_WHITE_SPACE).items():
         ok = ch in skipped
         ctx.oblige(rid, f"white-space character {name} is skipped between tokens", ok, sample={"rule": rid, "character": repr(ch), "verdict": "skipped by a cursor-only arm" if ok else "NOT skipped"})
         if not ok:
